@@ -17,6 +17,9 @@ MULTID = ("multi", "disk", 5, 50, 25, 50)
 CLOCK = ("clock", "mem", 30, 300, 40, 80)
 CLOCKD = ("clock", "disk", 15, 150, 40, 80)
 
+EXPIRY = ("expiry", "mem", 25, 250, 25, 50)
+EXPIRYD = ("expiry", "disk", 10, 100, 25, 50)
+
 ROW = ["row", "row.v", "row.cas", "row.exp", "row.json", "row.x", "row.tomb", "row.rev"]
 
 PROPS = {
@@ -43,12 +46,25 @@ PROPS = {
                 what="dump feeds (backfill snapshots) from several start CAS values, against the stored rows"),
     "C11": dict(modules=["Rosmar.Properties.C11"], slices=[MULTI, MULTID], proj=V.proj_all,
                 what="every key of every collection re-read after every operation on any collection"),
+    "C14": dict(modules=["Rosmar.Properties.C14"], slices=[EXPIRY, EXPIRYD, MULTI],
+                proj=P(rb=["row", "row.v", "row.exp", "row.tomb", "ge"], ev=["k", "op", "exp"], results=True,
+                       ops={"expstate", "fire", "restart", "touch", "gat"}),
+                what="stored expiries, the expiry manager's next-fire time after every operation, sweeps at scripted times, reopen"),
     "C17": dict(modules=["Rosmar.Properties.C17"], slices=[KV, FEEDS, MULTI],
                 proj=P(rb=["row", "row.rev", "gwx"], ev=["k", "rev", "cas"], results=False),
                 what="revSeqNo in the row, $document / $document.revid, live and backfill RevNo"),
 }
 
-EXTRA = {}   # property -> function(tier, seed, log) -> list of violations / coverage (schedules, crashes, ...)
+def extra_C14(tier, seed, log):
+    """Real wall clock, real timer goroutine: documents with a 2 s expiry (set by Set, by Touch, shortened by Touch, preserved)."""
+    p = V.sh([V.HARNESS, "realtime"], env=V.GOENV, timeout=120)
+    lines = [l for l in p.stdout.splitlines() if l.strip()]
+    viols = [{"kind": "timing", "signature": "C14/realtime/" + l.split(" ")[1].rstrip(":"), "msg": l, "ops": [], "scenario": l}
+             for l in lines if l.startswith(("violation", "error"))]
+    return {"realtime_scenarios": lines}, viols
+
+
+EXTRA = {"C14": extra_C14}
 
 
 def load_lines(path):
